@@ -193,6 +193,12 @@ impl FrameWriter for QuicFrameWriter {
             ));
         }
         let fragments = Fragments::make_fragments(mtu.unwrap(), &mut self.frame_id, frame);
+        if fragments.too_large() {
+            return Err(IoError::new(
+                ErrorKind::InvalidInput,
+                "Frame too large for datagram fragmentation",
+            ));
+        }
         let mut len = 0;
         for fragment in fragments {
             len += fragment.len();
